@@ -381,6 +381,38 @@ def poly_case(rep, rng, cases, sames, maxn):
                            'impl': {'plain': out, 'shifted': r3[0]}}, name + '[absorbs]', nontrivial=True, klass=name + '[absorbs]'))
 
 
+RULE += ('; remove_poly on LONG records (Signal / AccSignal method and fns.generic; 65536..131072 samples, quick: two records of degree 0 and 1, thorough: degrees 0-3): the record is an integer pattern of even period '
+         'repeated, shipped in compact form; Coq solves the normal equations written with the integer power sums of the whole record, checks its solution against them, and compares the output with '
+         'record - polynomial at ~40 positions (first, last, middle, random), 1e-9 relative; output length and dt compared')
+
+
+def poly_long_case(rep, rng, longs, k, n, entry):
+    """a record of tens of thousands of samples: y[i] = pattern[i % p] (small integers, even period p, not constant, the samples at even
+    positions do not have the mean of the whole pattern).  Compact in the case text; the output is compared at a sparse set of positions."""
+    name = ['Signal.remove_poly', 'AccSignal.remove_poly', 'eqsig.fns.generic.remove_poly'][entry] + '[long record]'
+    while True:
+        pat = [rng.randint(-9, 9) for _ in range(rng.choice([4, 6, 8, 10]))]
+        if len(set(pat)) > 1 and sum(pat[::2]) * 2 != sum(pat):
+            break
+    y = np.tile(np.array(pat, dtype=float), n // len(pat) + 1)[:n]
+    dt = rng.choice([0.005, 0.01, 0.02])
+    args = {'values': 'values[i] = values_pattern[i % len(values_pattern)] for i < npts', 'values_pattern': pat, 'npts': n, 'dt': dt, 'poly_fit': k}
+    r = guarded(poly_impl, entry, y, dt, k)
+    if isinstance(r, ImplError):
+        rep.violation(name, {'function': name, 'args': args, 'impl_error': str(r)})
+        return
+    out, dto = r
+    if out.ndim != 1:
+        rep.violation(name, {'function': name, 'args': args, 'impl': 'output of shape %r' % (out.shape,)})
+        return
+    m = len(out)
+    idx = sorted(i for i in set([0, 1, 2, n // 2, n - 2, n - 1] + [rng.randrange(n) for _ in range(34)]) if i < m)
+    coq = ('{| l_k := %d; l_n := %d; l_pat := [%s]; l_samples := [%s]; l_len_out := %d; l_dt := %s; l_dt_out := %s; l_rtol := %s |}'
+           % (k, n, '; '.join('(%d)%%Z' % v for v in pat), '; '.join('((%d)%%Z, %s)' % (i, q(out[i])) for i in idx), m, q(dt), q(dto), q(1e-9)))
+    longs.append(Case(coq, {'function': name, 'args': args, 'impl': {'len': m, 'dt': dto, 'sampled_indices': idx, 'out_at_sampled_indices': [float(out[i]) for i in idx]}},
+                      name, nontrivial=True, klass='%s/deg%d' % (name, k)))
+
+
 # ------------------------------------------------------------------ adds
 def add_cases(rep, rng, cases, N):
     import eqsig
@@ -495,6 +527,13 @@ def run(rep, rng, tier):
                     bp_gain(rep, rng, gains, order, bt, g, npairs=16 if quick else 40)
     for k in range(60 if quick else 600):
         poly_case(rep, rng, polys, sames, 100 if quick else 400)
+    longs = []
+    if quick:
+        long_cfgs = [(0, rng.choice([65536, 65537, 66000]), rng.randrange(2)), (1, rng.choice([65536, 70000, 72000]), rng.randrange(2))]
+    else:
+        long_cfgs = [(k, n, (k + j) % 3) for j, n in enumerate((65536, 65537, 72000, 100001, 131072)) for k in ((0, 1, 2) if n < 100000 else (1, 3))]
+    for k, n, entry in long_cfgs:
+        poly_long_case(rep, rng, longs, k, n, entry)
     add_cases(rep, rng, adds, 60 if quick else 600)
     for w in range(1, 26):
         for n in sorted(set([1, 2, 3, w - 1, w, w + 1, 2 * w, 2 * w + 1] + [rng.randint(1, 80) for _ in range(2 if quick else 20)])):
@@ -504,12 +543,12 @@ def run(rep, rng, tier):
         for n in (4, 12, rng.randint(1, 60)):
             ravg_case(rep, rng, ravgs, w, n, int_dtype=True)
     allc = []
-    for ctor, lst in (('CBp', bps), ('CLin', lins), ('CGain', gains), ('CPoly', polys), ('CSame', sames), ('CAdd', adds), ('CRavg', ravgs)):
+    for ctor, lst in (('CPolyL', longs), ('CBp', bps), ('CLin', lins), ('CGain', gains), ('CPoly', polys), ('CSame', sames), ('CAdd', adds), ('CRavg', ravgs)):
         for c in lst:
             c.coq = '(%s %s)' % (ctor, c.coq)
             allc.append(c)
     rep.extra['case_kinds'] = {'butter_pass args/layout/trim': len(bps), 'butter_pass linearity': len(lins), 'butter_pass gain': len(gains),
-                               'remove_poly': len(polys), 'remove_poly idempotent/absorbs': len(sames), 'adds': len(adds), 'running_average': len(ravgs)}
+                               'remove_poly': len(polys), 'remove_poly long records': len(longs), 'remove_poly idempotent/absorbs': len(sames), 'adds': len(adds), 'running_average': len(ravgs)}
     rep.correspond('model.K_C17', 'check_case', allc, describe='model_out %s', max_cases=300)
 
 
@@ -546,6 +585,10 @@ def replay_call(rp):
             return s.values
         return 'not replayable from the file: %r' % (a.get('cut_off'),)
     if 'remove_poly' in fn:
+        if 'values_pattern' in a:     # long record in compact form
+            pat = a['values_pattern']
+            a = dict(a, values=list(np.tile(np.array(pat, dtype=float), a['npts'] // len(pat) + 1)[:a['npts']]))
+            fn = fn.replace('[long record]', '')
         if fn.startswith('eqsig.fns'):
             st = a.get('stored_as')
             arg = [int(v) for v in a['values']] if st == 'list' else np.array(a['values'], dtype=float).astype(st or float)
